@@ -27,7 +27,8 @@ LEVEL_TEXT = ("Streams of 1-6 message/junk lines (LF and CRLF; ASCII, 2/3/4-byte
               ' Also an application that is busy while 101-400 answers arrive (reading paused, per-request streams registered for their ids or not): after it reads on, the read stream must have carried every line.'
               ' Also a child that exits (status known to the process object) while 3-4000 messages it wrote are still unread.'
               ' Also a line larger than one read followed by further lines in the same read, a child whose exit status is known before its output has been read, and an application that reads nothing for a while.'
-              ' Also junk lines that are JSON strings holding the text of a message (double-encoded).')
+              ' Also junk lines that are JSON strings holding the text of a message (double-encoded).'
+              ' Also response-shaped junk lines whose error object is empty or lacks its code.')
 LEVEL_NOTE = ("Trusted: the ScriptedProcess stand-in yields exactly the chosen chunks; reference framing = split whole "
               "stream on LF, UTF-8 decode, strip, json.loads, independent JSON-RPC validator. Lines with a missing/non-2.0 "
               "jsonrpc member may be delivered or dropped (the library's own tests pin leniency there).")
